@@ -55,30 +55,19 @@ theorem commentLoop_bounds (inp : Input) : ∀ fuel pos stop, stop ≤ pos → p
     · simp; omega
 
 theorem stringLoop_bounds (inp : Input) : ∀ fuel pos esc, pos ≤ inp.size →
-    pos ≤ (stringLoop inp fuel pos esc).1 ∧ (stringLoop inp fuel pos esc).1 ≤ (stringLoop inp fuel pos esc).2 ∧
+    pos ≤ (stringLoop inp fuel pos esc).1 + (if esc then 1 else 0) ∧ (stringLoop inp fuel pos esc).1 ≤ (stringLoop inp fuel pos esc).2 ∧
     (stringLoop inp fuel pos esc).2 ≤ inp.size := by
   intro fuel
   induction fuel with
   | zero => intro pos esc h; simp [stringLoop]; omega
   | succ n ih =>
     intro pos esc h
+    have h1 := ih (pos + 1) false
+    have h2 := ih (pos + 1) true
+    simp only [Bool.false_eq_true, ↓reduceIte] at h1 h2
     unfold stringLoop
-    split
-    · simp only
-      split
-      · have := ih (pos + 1) false (by omega); omega
-      · split
-        · simp; omega
-        · split
-          · split
-            · have := ih (pos + 1) false (by omega); omega
-            · simp; omega
-          · split
-            · simp; omega
-            · split
-              · have := ih (pos + 1) (!esc) (by omega); omega
-              · have := ih (pos + 1) false (by omega); omega
-    · simp; omega
+    cases esc <;> simp only [Bool.not_true, Bool.not_false, Bool.false_eq_true, ↓reduceIte] <;>
+      (repeat' split) <;> (try simp) <;> omega
 
 /-- invariant of the block-string counters: everything counted lies between the content start and
     the current position — this is what makes `End = pos − 3 − whitespaceCount` and
